@@ -254,18 +254,32 @@ theorem clause_tokens (h : Hdr) (C : Canon h) :
     have hfc : f.1 = canon (trimOWS piece) := canon_of_lower f.1 _ htok (C.can _ he) hpe.symm
     have hin : f.1 ∈ connNames h := by
       unfold connNames
-      rw [hfc]
-      apply List.mem_map.mpr
-      refine ⟨trimOWS piece, ?_, rfl⟩
       apply List.mem_filter.mpr
       refine ⟨?_, ?_⟩
-      · apply List.mem_flatMap.mpr
+      · apply List.mem_map.mpr
+        refine ⟨trimOWS piece, ?_, hfc.symm⟩
+        apply List.mem_flatMap.mpr
         refine ⟨v, by rw [hlk]; exact hvkv, ?_⟩
         apply List.mem_map.mpr
         exact ⟨piece, hpm, hts⟩
-      · cases hq : trimOWS piece with
-        | nil => exact absurd hq hcne
-        | cons _ _ => rfl
+      · have hne1 : f.1.isEmpty = false := by
+          cases hq : f.1 with
+          | nil => rw [hq] at hnonempty; simp at hnonempty
+          | cons _ _ => rfl
+        have hnp : BfeVerif.Generated.C26.hopProtected.contains f.1 = false := by
+          cases hp : BfeVerif.Generated.C26.hopProtected.contains f.1 with
+          | false => rfl
+          | true =>
+            exfalso
+            have hm : f.1 ∈ BfeVerif.Generated.C26.hopProtected := List.contains_iff_mem.mp hp
+            have : f.1.map lower ∈ ownLower := by
+              unfold ownLower
+              exact List.mem_map.mpr ⟨f.1, List.mem_append.mpr (Or.inr hm), rfl⟩
+            have hc1 := hcond.1
+            rw [List.contains_iff_mem.mpr this] at hc1
+            simp at hc1
+        simp only [hne1, Bool.not_false, Bool.true_and, Bool.not_eq_true']
+        exact hnp
     have := (hop_core h C.nodup f hf (List.mem_append.mpr (Or.inr hin))).1
     apply hcond.2
     rw [this]
